@@ -612,7 +612,8 @@ class SetGen(object):
             opt = gl[k:k + rng.randint(0, 3)]
             items = [('GROUP', g, self.text(rng)) for g in opt]
             if 'compliance_objects' in self.f:
-                objs = [o.name for o in self.objects.get(target.name, [])]
+                objd = dict((o.name, o) for o in self.objects.get(target.name, []))
+                objs = list(objd)
                 for o in objs[:rng.randint(0, 2)]:
                     pos = rng.randint(1 if 'no_leading_object' in self.f and items else 0, len(items)) \
                         if items else 0
@@ -620,7 +621,12 @@ class SetGen(object):
                         if not items:
                             continue
                         pos = 1
-                    items.insert(pos, ('OBJECT', o, None, None,
+                    # refined SYNTAX / WRITE-SYNTAX clauses repeat the object's own syntax: the clause
+                    # grammar is exercised, nothing of it is kept in the tree or in the output
+                    osyn = getattr(objd[o], 'syntax', None)
+                    items.insert(pos, ('OBJECT', o,
+                                       osyn if osyn is not None and rng.random() < 0.4 else None,
+                                       osyn if osyn is not None and rng.random() < 0.3 else None,
                                        rng.choice([None, 'read-only', 'not-accessible']),
                                        self.text(rng)))
             if not mand and not items:
@@ -645,10 +651,17 @@ class SetGen(object):
                 gl = [g.name for g in self.ogroups.get(m.name, [])]
                 if gl and rng.random() < 0.6:
                     sup = {'module': m.name, 'groups': gl[:rng.randint(1, len(gl))], 'variations': []}
-                    for o in self.objects.get(m.name, [])[:rng.randint(0, 2)]:
+                    mobjs = self.objects.get(m.name, [])
+                    for o in mobjs[:rng.randint(0, 2)]:
+                        osyn = getattr(o, 'syntax', None)
                         sup['variations'].append({
                             'name': o.name, 'access': rng.choice([None, 'read-only', 'not-implemented']),
-                            'creation': None, 'descr': self.text(rng)})
+                            'syntax': osyn if osyn is not None and rng.random() < 0.35 else None,
+                            'write_syntax': osyn if osyn is not None and rng.random() < 0.25 else None,
+                            'creation': [x.name for x in rng.sample(mobjs, rng.randint(1, min(3, len(mobjs))))]
+                            if rng.random() < 0.3 else None,
+                            'defval': rng.choice(['0', '1', '-1', "'00'H", 'someLabel']) if rng.random() < 0.25 else None,
+                            'descr': self.text(rng)})
                     d.supports.append(sup)
         d.oid = self.child_oid(mod)
         return self.register(mod, d)
